@@ -33,12 +33,10 @@ def o_round(case):
     if ser != want:
         what = "length field" if ser[1:3] != want[1:3] else ("CRC" if ser[:-3] == want[:-3] else "body")
         raise Fail(f"serialize-not-canonical-{what}", f"len {len(p)}: serialize() = {ser[:4].hex()}..{ser[-3:].hex()} expected {want[:4].hex()}..{want[-3:].hex()}")
-    if not isinstance(ser, bytes):
-        raise Fail("serialize-type", type(ser).__name__)
     m2 = RTCMReader.parse(ser, labelmsm=lm)
     if m2.payload != p or m2.identity != m.identity or pub(m2) != pub(m):
         raise Fail("parse-of-serialize-differs", f"len {len(p)} identity {m.identity}")
-    if m.payload != p or not isinstance(m.payload, bytes):
+    if m.payload != p:
         raise Fail("payload-not-preserved", f"len {len(p)}")
     # converse: frame -> parse -> serialize
     m3 = RTCMReader.parse(want, labelmsm=lm)
